@@ -883,6 +883,30 @@ func boundedSize(v ssa.Value, at *ssa.BasicBlock) (Verdict, string) {
 	if lenDerived(root, 0) {
 		return OK, "sized by the length of data already in memory"
 	}
+	// a bounded size plus or minus a small constant (room for a terminator, a header) is bounded
+	if bo, ok := root.(*ssa.BinOp); ok && (bo.Op == token.ADD || bo.Op == token.SUB) {
+		small := func(x ssa.Value) bool {
+			k, ok := x.(*ssa.Const)
+			if !ok || k.Value == nil || k.Value.Kind() != constant.Int {
+				return false
+			}
+			n, exact := constant.Int64Val(k.Value)
+			return exact && n >= 0 && n <= 1<<16
+		}
+		other := ssa.Value(nil)
+		if small(bo.Y) {
+			other = bo.X
+		} else if bo.Op == token.ADD && small(bo.X) {
+			other = bo.Y
+		}
+		if other != nil {
+			verdict, why := boundedSize(other, at)
+			if verdict == OK {
+				why += " (and a small constant added)"
+			}
+			return verdict, why
+		}
+	}
 	// look for dominating upper-bound comparisons on root (or conversions of it)
 	cands := []ssa.Value{root}
 	if refs := root.Referrers(); refs != nil {
